@@ -23,7 +23,11 @@ import (
 
 	"github.com/gorilla/websocket"
 
+	agentconfig "github.com/andydunstall/piko/agent/config"
+	"github.com/andydunstall/piko/agent/tcpproxy"
 	"github.com/andydunstall/piko/client"
+	"github.com/andydunstall/piko/forward"
+	pikolog "github.com/andydunstall/piko/pkg/log"
 	pikows "github.com/andydunstall/piko/pkg/websocket"
 
 	"verifharness/internal/psim"
@@ -152,6 +156,69 @@ func newPair(path string) (*pair, error) {
 			return nil, fmt.Errorf("weng: listener did not accept")
 		}
 		return &pair{a: a, b: b, cleanup: func() { _ = ln.Shutdown(); stop() }}, nil
+	case "chain":
+		// TCP client -> piko forward -> node a -> node b -> agent TCP proxy -> local TCP service
+		n1, err := psim.StartNode(psim.NodeOpts{ID: "a"})
+		if err != nil {
+			return nil, err
+		}
+		n2, err := psim.StartNode(psim.NodeOpts{ID: "b", Join: []string{n1.GossipAddr()}})
+		if err != nil {
+			n1.Stop()
+			return nil, err
+		}
+		nodes := []*psim.Node{n1, n2}
+		svc, err := net.Listen("tcp", "127.0.0.1:0")
+		if err != nil {
+			return nil, err
+		}
+		fln, err := net.Listen("tcp", "127.0.0.1:0")
+		if err != nil {
+			return nil, err
+		}
+		up := &client.Upstream{URL: &url.URL{Scheme: "http", Host: n2.UpstreamAddr()}}
+		ln, err := up.Listen(context.Background(), "tcp-e")
+		if err != nil {
+			return nil, err
+		}
+		agent := tcpproxy.NewServer(agentconfig.ListenerConfig{EndpointID: "tcp-e", Addr: svc.Addr().String(),
+			Protocol: agentconfig.ListenerProtocolTCP, Timeout: 5 * time.Second}, pikolog.NewNopLogger())
+		go func() { _ = agent.Serve(ln) }()
+		fwd := forward.NewForwarder("tcp-e", &client.Dialer{URL: &url.URL{Scheme: "http", Host: n1.ProxyAddr()}}, pikolog.NewNopLogger())
+		go func() { _ = fwd.Forward(fln) }()
+		stop := func() {
+			_ = fwd.Close()
+			_ = agent.Close()
+			_ = ln.Shutdown()
+			svc.Close()
+			for _, n := range nodes {
+				n.Stop()
+			}
+		}
+		if !psim.WaitFor(10*time.Second, func() bool { return psim.Settled(nodes, "") }) {
+			stop()
+			return nil, fmt.Errorf("weng: did not settle")
+		}
+		acc := make(chan net.Conn, 1)
+		go func() {
+			c, err := svc.Accept()
+			if err == nil {
+				acc <- c
+			}
+		}()
+		a, err := net.DialTimeout("tcp", fln.Addr().String(), 3*time.Second)
+		if err != nil {
+			stop()
+			return nil, err
+		}
+		var b net.Conn
+		select {
+		case b = <-acc:
+		case <-time.After(5 * time.Second):
+			stop()
+			return nil, fmt.Errorf("weng: the local service was not connected to")
+		}
+		return &pair{a: a, b: b, cleanup: stop}, nil
 	}
 	return nil, fmt.Errorf("unknown path %s", path)
 }
@@ -215,6 +282,17 @@ func (r *run) close(end string) {
 	c := r.p.a
 	if end == "b" {
 		c = r.p.b
+	}
+	if r.path == "chain" {
+		// plain TCP ends: closing a socket with unread data resets the connection instead of ending the
+		// stream, so the closing end first reads what was written towards it
+		in := "ba"
+		if end == "b" {
+			in = "ab"
+		}
+		for i := 0; i < 5000 && r.read[in] < r.wrote[in]; i++ {
+			r.readOnce(in, 8192)
+		}
 	}
 	_ = c.Close()
 	r.closedBy = end
